@@ -2,7 +2,8 @@
 
 proof : Properties/C05.v (include_visibility, import_visibility_partial + _refuted, module_exports_exact,
         ignore_missing_scope, select_first_existing)
-tie   : K-rt extracted Model.Imp.render / module_of == Template.render / Template.module of generated
+tie   : T5   gen/imp_translate.py: source of new_context / _get_default_module = Model/Imp (via Lib/PyImp)
+        K-rt extracted Model.Imp.render / module_of == Template.render / Template.module of generated
         template sets (DictLoader), output or exception class, exported names and values;
 oracle: extracted Spec.ImpSpec.spec_render / spec_module (visibility as lookup order, first existing
         name, last-binder export rule) vs the real engine.
@@ -107,6 +108,23 @@ def run_sets(ctx, jinja2, sets):
         judge(ctx, case, ml, real, bool(nontriv), line)
 
 
+def translator_tie(ctx, module, name, n):
+    """regenerate the source = model equations from the current source and compile them"""
+    import importlib
+    import os
+    import sys
+    sys.path.insert(0, os.path.join(lib.ROOT, "gen"))
+    tr = importlib.import_module(module)
+    try:
+        vtext = tr.emit(lib.SRC)
+    except tr.Untranslatable as e:
+        ctx.broken.append(f"translator gen/{module}.py: the source left the translatable vocabulary: {e}")
+        return
+    ok, out = ctx.coq_obligation(name, vtext, n_obligations=n)
+    if ok:
+        ctx.trusted.append(f"{name} (source = model equations): " + " ".join(out.split()))
+
+
 def run(ctx):
     jinja2 = lib.use_repo_jinja()
     ctx.extra["rule"] = RULE
@@ -120,8 +138,11 @@ def run(ctx):
         "top-level frame locals coincide with context.vars (visit_Assign stores both)",
     ]
     ctx.proof("C05")
+    # translator tie: the current source of runtime.new_context and Template._get_default_module, as terms of
+    # Lib/PyImp, equals the reference results that Lib/PyImp proves equal to Model/Imp's functions
+    translator_tie(ctx, "imp_translate", "Gen_imp", 2)
     g = G.IGen(ctx.rng)
-    n = ctx.size(1400, 40000)
+    n = ctx.size(1000, 40000)
     B = 2000
     for i in range(0, n, B):
         run_sets(ctx, jinja2, [g.tset() for _ in range(min(B, n - i))])
